@@ -9,7 +9,10 @@ thread executing the corresponding well-locked program to completion (`runThread
   join <i> | leave <i>                registerConnection of a fresh connection i / i.Disconnect → teardown
   sadd <i> | srem <i>                 players.add / players.remove on the lobby
   regsrv <k> | unregsrv <k>           Proxy.Register / Proxy.Unregister
-  players | count | servers | slen | srange     the listing / counting APIs (sorted)
+  players | count | servers | slen | srange     the listing / counting APIs (sorted); the harness scrambles every
+                                      slice it gets back IN PLACE after reading it (reverse, then overwrite all
+                                      entries with one), so a listing that shares its backing array with an
+                                      earlier caller's shows duplicates
   srangemut rem | srangemut add <j>   Range whose callback, on its first call, removes every member /
                                       adds 40 new members: `r=<visited> len=<Len() afterwards>`
   srangestop <n>                      Range whose callback returns false at its n-th call: visits
@@ -44,7 +47,8 @@ def runProg (m : GMap) (p : List Act) : Option (GMap × List (List Val)) :=
   | some s => if s.race || s.fatal then none else some (s.m, s.outs.map (·.listing))
   | none => none
 
-def listProg : List Act := [.rlock, .size, .range, .runlock, .use]
+/-- a listing call; the caller then reorders / overwrites the list it got, in place (the harness does) -/
+def listProg : List Act := [.rlock, .size, .range, .runlock, .use, .mutate]
 def sizeProg : List Act := [.rlock, .size, .runlock]
 
 def listing (m : GMap) : Option (List Val) := (runProg m listProg).bind (fun r => r.2.head?)
